@@ -7,8 +7,10 @@
                                            reaches maxValidationErrors), OnFinishSerialization     -> `addError`, `runEvents`, `finish`
     bit_serializer.h                       LoadObject: load, Finalize, OnFinishSerialization        -> `loadClass`
 
-  Email and PhoneNumber are NOT modelled: `Validator.verdict` carries the outcome for a loaded value as an input
-  (the ops exercise the real functors on a fixed list of addresses/numbers with the expected classification).
+  Email and PhoneNumber are modelled unit by unit in Valid/TextValidators.lean (`Text.email`, `Text.phone`), judged by
+  Valid/TextSpec.lean and exercised directly by the ops `val.email*` / `val.phone*`. Inside a LOAD (`val.load`) the
+  validator list still carries their outcome as an input (`Validator.verdict`): what the load machinery does with a
+  failing validator does not depend on why it failed.
 
   A class is a list of fields `(key, kind, validators)`; kinds: scalar leaves (int64, string, optional<int64>,
   vector<int64>), a nested flat class, a vector of flat classes, a string-keyed map of flat classes.
